@@ -797,6 +797,33 @@ func (tr *trans) applyContract(fc *FuncContract, sig *types.Signature, key strin
 		}
 	}
 	pre := st.clone()
+	// a ghost variable the caller declares stable is still changed by a contracted callee whose postconditions
+	// speak about it (the callee's contract is what is known about the call, and keeping the old value next to
+	// "new == old + 1" would be a contradiction: everything after the call unreachable)
+	if len(tr.stableHeaps) > 0 && !fc.PureFn && (!fc.HasModifies || fc.ModAll) {
+		saved := tr.stableHeaps
+		kept := map[string]bool{}
+		for name := range saved {
+			mentioned := false
+			if strings.HasPrefix(name, "ghost.") {
+				gn := strings.TrimSuffix(strings.TrimPrefix(name, "ghost."), "$dom")
+				short := gn
+				if i := strings.LastIndex(gn, "."); i >= 0 {
+					short = gn[i+1:]
+				}
+				for _, it := range fc.Items {
+					if (it.Kind == "ensures" || it.Kind == "defines") && strings.Contains(it.Src, short) {
+						mentioned = true
+					}
+				}
+			}
+			if !mentioned {
+				kept[name] = true
+			}
+		}
+		tr.stableHeaps = kept
+		defer func() { tr.stableHeaps = saved }()
+	}
 	// frame
 	switch {
 	case fc.PureFn:
@@ -1607,6 +1634,7 @@ func (tr *trans) sortedByClosure(c *ssa.CallCommon, s Term, st State) bool {
 			}
 			l := tr.locOf(bv)
 			env.vars[name] = env.goSV(tr.load(st, l), pt.Elem())
+			env.vars["captured_"+name] = env.vars[name]
 		}
 	}
 	for _, it := range fc.Items {
